@@ -141,3 +141,50 @@ macro_rules! flip_item {
 }
 flip_item!(FlipZ, (), |_| true);
 flip_item!(FlipB, u8, |m| m & 1 == 1);
+
+/// Range sum with "add an arithmetic progression to a range" (wave 4): a lawful lazy item whose `push` does NOT treat its
+/// two children alike.  An element knows its position; a node keeps the sum, the number of elements, the sum of their
+/// positions (`ps`) and the position of its first element (`lo`; `None` for the empty aggregate).  The pending tag
+/// `(ta, td)` is relative to the node's own first element: the element at position `q` still has to receive
+/// `ta + td * (q - lo)`.  The modifier `(from, a, d)` adds `a + d * (q - from)` to the element at position `q`.
+/// Lean: `apItem` (`Model/SegtreeItems.lean`); its `push` re-bases the tag by `child.lo - lo`, which is this `push`
+/// whenever the left child starts where the node starts and the right child `left.len` later (`C01.ap_push_is_code_push`).
+#[derive(Clone, Debug, Default)]
+pub struct Ap {
+    pub sum: i64,
+    pub len: i64,
+    pub ps: i64,
+    pub lo: Option<i64>,
+    pub ta: i64,
+    pub td: i64,
+}
+
+impl Ap {
+    /// the element with value `v` at position `q`
+    pub fn leaf(q: i64, v: i64) -> Self {
+        Ap { sum: v, len: 1, ps: q, lo: Some(q), ta: 0, td: 0 }
+    }
+    /// the progression has the value `a` at this node's first element, step `d`
+    fn apply(&mut self, a: i64, d: i64) {
+        self.sum += a * self.len + d * (self.ps - self.lo.unwrap_or(0) * self.len);
+        self.ta += a;
+        self.td += d;
+    }
+}
+
+impl SegtreeItem<(i64, i64, i64)> for Ap {
+    fn merge(l: &Self, r: &Self) -> Self {
+        Ap { sum: l.sum + r.sum, len: l.len + r.len, ps: l.ps + r.ps, lo: l.lo.or(r.lo), ta: 0, td: 0 }
+    }
+    fn modify(&mut self, m: &(i64, i64, i64)) {
+        let (from, a, d) = *m;
+        self.apply(a + d * (self.lo.unwrap_or(0) - from), d);
+    }
+    fn push(&mut self, l: &mut Self, r: &mut Self) {
+        // the left child starts where this node starts, the right child `l.len` elements later
+        l.apply(self.ta, self.td);
+        r.apply(self.ta + self.td * l.len, self.td);
+        self.ta = 0;
+        self.td = 0;
+    }
+}
